@@ -196,7 +196,7 @@ Example c13_sync_rung_completes_example :
               future := [(1%nat, 3)]; first_free := 3 |} in
   let sl := {| s_rung := 0; s_level := 1; s_index := 1; s_trial := Some 1; s_metric := None |} in
   slot_valid b (with_trial sl (Some 1) None) = true /\
-  match bracket_on_result ex_promote b (with_trial sl (Some 1) (Some MNaN)) with
+  match bracket_on_result (fun rung n => firstn n (somes (map fst rung))) b (with_trial sl (Some 1) (Some MNaN)) with
   | SOk b' => length (rungs_done b') = 1%nat /\ cur b' = Some ([(Some 0, None)], 3)
   | SError _ => False
   end.
